@@ -223,6 +223,18 @@ namespace
                         // pointer is chosen such that node_size <= 16 bytes stay inside that part.)
                         p = mine.front()->base;
                         break;
+                    case 5:
+                    case 6:
+                    {
+                        // inside the chunk header of the first chunk, a whole number of nodes below its first node
+                        // (the arena header takes 16 bytes, the chunk header 32)
+                        std::size_t first = 16 + 32;
+                        std::size_t back  = c.arg(1) == 5 ? nsz : (32 / (nsz ? nsz : 1)) * nsz;
+                        if (back == 0 || back > 32)
+                            back = nsz <= 32 ? nsz : 16;
+                        p = mine.front()->base + first - back;
+                        break;
+                    }
                     default:
                         p = mine.back()->base + mine.back()->size + 24;
                         break;
